@@ -52,6 +52,14 @@ def build(pid, cfg, outdir):
     binp = os.path.join(outdir, "bin", pid.lower() + ".test")
     os.makedirs(os.path.dirname(binp), exist_ok=True)
     cmd = ["go", "test", "-c", "-tags", "verif", "-vet=off", "-o", binp, "./" + cfg["pkg"]]
+    alt = os.environ.get("VERIF_REPO")
+    if alt:
+        # sensitivity runs: build against a scratch copy of the repository
+        mod = open(os.path.join(ROOT, "go.mod")).read().replace("=> /repo", "=> " + os.path.abspath(alt))
+        altmod = os.path.join(outdir, "alt.go.mod")
+        open(altmod, "w").write(mod)
+        shutil.copy(os.path.join(ROOT, "go.sum"), os.path.join(outdir, "alt.go.sum"))
+        cmd.insert(2, "-modfile=" + altmod)
     if cfg.get("race"):
         cmd.insert(3, "-race")
     t0 = time.time()
